@@ -42,34 +42,34 @@ var strFuncs = map[string]LGFunction{
 
 func strByte(L *LState) int {
 	str := L.CheckString(1)
-	start := L.OptInt(2, 1) - 1
-	end := L.OptInt(3, -1)
 	l := len(str)
-	if start < 0 {
-		start = l + start + 1
+	// positions are 1-based and inclusive; j defaults to i, not to the end of the string
+	posi := luaRelativePos(L.OptInt(2, 1), l)
+	pose := luaRelativePos(L.OptInt(3, posi), l)
+	if posi <= 0 {
+		posi = 1
 	}
-	if end < 0 {
-		end = l + end + 1
+	if pose > l {
+		pose = l
 	}
-
-	if L.GetTop() == 2 {
-		if start < 0 || start >= l {
-			return 0
-		}
-		L.Push(LNumber(str[start]))
-		return 1
-	}
-
-	start = intMax(start, 0)
-	end = intMin(end, l)
-	if end < 0 || end <= start || start >= l {
+	if posi > pose {
 		return 0
 	}
-
-	for i := start; i < end; i++ {
-		L.Push(LNumber(str[i]))
+	for i := posi; i <= pose; i++ {
+		L.Push(LNumber(str[i-1]))
 	}
-	return end - start
+	return pose - posi + 1
+}
+
+// luaRelativePos is lstrlib's posrelat: a negative position counts from the end.
+func luaRelativePos(pos, l int) int {
+	if pos < 0 {
+		pos += l + 1
+	}
+	if pos < 0 {
+		return 0
+	}
+	return pos
 }
 
 func strChar(L *LState) int {
